@@ -56,7 +56,7 @@ Print Assumptions C05_accepted_commits.
 
 Theorem C05_holder_refuses_unbound_build :
   forall O E h cseg a c claims,
-    jwt_parts_m (h_jwt h) = Val (a, cseg, c) -> o_claims O cseg = Ok claims -> jhas "cnf" claims = true ->
+    jwt_parts_m (h_jwt h) = Val (a, cseg, c) -> o_claims O cseg = Ok claims -> kb_bound claims = true ->
     h_kb h = None -> holder_build O E h = Fail.
 Proof. exact build_bound_requires_kb. Qed.
 Print Assumptions C05_holder_refuses_unbound_build.
